@@ -195,11 +195,11 @@ def run(tier):
         raise MachineryError('E03 driver failed on %d cases, e.g. %s\n%s' % (len(errs), errs[0]['key'], errs[0]['err']))
     crashed = [c for c in cases if c['k'] == 'crash']
     rep.extra['sites_where_skool2html_raised'] = len(crashed)
-    if crashed:
-        log('E03: %d sites without observation, e.g. %s: %s' % (len(crashed), crashed[0]['key'], crashed[0]['err'][-300:]))
-    if len(crashed) > n_site // 20:
-        raise MachineryError('E03: skool2html gave no observation on %d of %d generated sites, e.g. %s\n%s'
-                             % (len(crashed), n_site, crashed[0]['key'], crashed[0]['err']))
+    for c in crashed:
+        # every generated site is documented use (existing files, well-formed options): no observation = skool2html failed
+        what = (c['err'].strip().splitlines() or ['?'])[-1]
+        rep.violation('site:skool2html-failed:%s' % what.split(':')[0].split(' ')[0][:40], '%s: skool2html did not get as far as HtmlWriter.init(): %s [%s]'
+                      % (c['key'], what[:200], describe(dict(c, k='site'))[:600]), {'case': c['key'], 'input': c['meta'], 'error': c['err']})
     cases = [c for c in cases if c['k'] not in ('crash',)]
     cases.append(refdrv.reffile_case())
     log('E03: %d cases recorded' % len(cases))
